@@ -1,6 +1,6 @@
 (* extraction of the code-generator model and the reference semantics: ExtrOcamlBasic only *)
 Require Extraction.
 Require Import ExtrOcamlBasic.
-From MS Require Import Compile.Compile Lang.Eval Verify.Check.
+From MS Require Import Compile.Compile Lang.Eval Verify.Check Compile.StmtFragB.
 Extraction Language OCaml.
-Extraction "core_model.ml" cprogram run certify infer check.
+Extraction "core_model.ml" cprogram run certify infer check in_fragment.
